@@ -740,7 +740,16 @@ func ruleLexMode(c *Ctx) {
 	}
 	// ... and at nothing else: the two run predicates refuse exactly the documented terminators (decided by folding them
 	// on every rune below U+0300 and a sample beyond); white space ends a symbol and is part of a metadata text
-	if lt, err := c.lexerTables(); err == nil && lt.exclFolded {
+	if lt, err := c.lexerTables(); err != nil || !lt.exclFolded {
+		why := "the run predicates do not fold on the rune domain"
+		if err != nil {
+			why = err.Error()
+		}
+		for _, label := range []string{"symbol", "metadata"} {
+			c.site(1)
+			c.undec(name+"|"+label+"-exact", c.pos(fn.Pos()), name, "where a "+label+" run stops cannot be decided: "+why)
+		}
+	} else {
 		sortRunes := func(s string) string {
 			rs := []rune(s)
 			sort.Slice(rs, func(i, j int) bool { return rs[i] < rs[j] })
@@ -867,6 +876,14 @@ func ruleParseErr(c *Ctx) {
 						// parseText's error as it is on every path (the caller then decides before looking at the tree)
 						if st, isStore := use.(*ssa.Store); isStore && st.Val == ssa.Value(ex) && returnsErrorOf(call) {
 							continue
+						}
+						// handing tree and error on together (`return parseText(r)`) is not a use either: whoever receives
+						// the pair decides
+						if r, isRet := use.(*ssa.Return); isRet && len(r.Results) == 2 && r.Results[0] == ssa.Value(ex) {
+							if e1, ok := r.Results[1].(*ssa.Extract); ok && e1.Tuple == ssa.Value(call) && e1.Index == 1 {
+								okErr = true
+								continue
+							}
 						}
 						okUse = false
 					}
@@ -1195,6 +1212,7 @@ func ruleConvOrder(c *Ctx) {
 		c.missing("astconv.ASTConverter.Convert")
 		return
 	}
+	c.checkConverterState()
 	name := fname(fn)
 	// the steps may sit in a helper shared by the chord and the rest clause: look at the whole region of Convert
 	var mods, convs, scales []rcall
@@ -1307,6 +1325,30 @@ func ruleConvOrder(c *Ctx) {
 			if ch.Common().Args[0] != sc {
 				problem = "ChangeScale is not given the scale built from the key"
 			}
+			// every key an instance carries reaches the converter: the only ways round the call are `no key`, `the chord
+			// converter does not follow scales` and a failed NewScale - not a comparison with a remembered key
+			if problem == "" {
+				if b := bypassReturn(cs, ch.Block(), func(iff *ssa.If) int {
+					switch x := iff.Cond.(type) {
+					case *ssa.BinOp:
+						if (x.Op == token.EQL || x.Op == token.NEQ) && (isNilConst(x.X) || isNilConst(x.Y)) {
+							isErr := isErrorType(x.X.Type()) || isErrorType(x.Y.Type())
+							// presence: `== nil` true / `!= nil` false is the way round; failure: `err != nil` true / `err == nil` false
+							if (x.Op == token.EQL) != isErr {
+								return 0
+							}
+							return 1
+						}
+					case *ssa.Extract:
+						if ta, ok := x.Tuple.(*ssa.TypeAssert); ok && ta.CommaOk && x.Index == 1 {
+							return 1 // not a ScaleChangeable: nothing to change
+						}
+					}
+					return -1
+				}); b != nil {
+					problem = "there is a way past ChangeScale for an instance that carries a key (a comparison with a remembered key, say): a return to an earlier key is ignored"
+				}
+			}
 		}
 	}
 	c.check(problem == "", fname(cs), c.pos(cs.Pos()), fname(cs), "NewScale(*v.Key) -> ChangeScale(scale), error returned", fname(cs)+": "+problem)
@@ -1351,7 +1393,16 @@ func ruleClassify(c *Ctx) {
 		return strings.HasSuffix(calleeName(ci.Common()), "ASTTypeClassifier.Classify")
 	})
 	cv := firstCall(fn, invokeOf("astconv.Converter", "Convert"))
-	good := cl != nil && cv != nil && dominatesInstr(cl, cv) && c.errorReturned(cl.(*ssa.Call))
+	var cvTop ssa.Instruction = cv
+	if cv == nil {
+		// the conversion loop may sit in a helper of convert: the call in convert that leads to it stands for it
+		for _, rc := range c.regionCalls(fn, nil) {
+			if invokeOf("astconv.Converter", "Convert")(rc.call) {
+				cv, cvTop = rc.call, rc.top()
+			}
+		}
+	}
+	good := cl != nil && cv != nil && dominatesInstr(cl, cvTop) && c.errorReturned(cl.(*ssa.Call))
 	c.check(good, name, c.pos(fn.Pos()), name, "Classify (error returned) before any conversion", name+": the tree is no longer classified (letters vs numbers) with its error returned before conversion starts: mixed notation is converted instead of refused")
 	// all elements converted, in order, into result[i]
 	if cv != nil {
